@@ -1,9 +1,261 @@
-/- C15 — executable model (core Lean only).  Stub. -/
+/-
+C15 — executable model of the grid topology (`optimize/grid.py`, `cell.py`, `junction.py`,
+`connection.py`) and of Laplacian smoothing (`optimize/smoother.py`) with its copy-back
+(`MeshSmoother/SketchSmoother.backport`, `MappedSketch.positions`).  Exact rationals, core Lean only.
+
+The topology part (cells, cell neighbours, boundary, junction neighbours) is shared with C14
+(`GridBase.quality` needs the neighbour of every side).
+-/
 import CBV.Model.Common
 import CBV.Gen.Tables
 
 namespace CBV.C15
+open CBV
 
-def handle (_op : String) (_args : List String) : Option String := none
+/-! ### tables of one cell class (`HexCell` / `QuadCell`), taken from the generated tables -/
+
+structure Kind where
+  /-- `side_indexes` -/
+  sideIdx : List (List Nat)
+  /-- `edge_pairs` -/
+  edgePairs : List (Nat × Nat)
+  /-- number of corners of a cell -/
+  corners : Nat
+  deriving Repr, DecidableEq
+
+def hexKind : Kind := ⟨CBV.Gen.hexSideIdx, CBV.Gen.hexEdgePairs, 8⟩
+def quadKind : Kind := ⟨CBV.Gen.quadSideIdx, CBV.Gen.quadEdgePairs, 4⟩
+
+/-- `GridBase`: the cells by their addressing (point indexes per corner) over `n` points. -/
+structure Grid where
+  kind : Kind
+  cells : List (List Nat)
+  n : Nat
+  deriving Repr, DecidableEq
+
+/-! ### `CellBase` -/
+
+/-- python `set(a) == set(b)` on lists -/
+def setEq (a b : List Nat) : Bool := a.all (fun x => b.contains x) && b.all (fun x => a.contains x)
+
+/-- `CellBase.get_common_indexes`: `set(self.indexes) ∩ set(candidate.indexes)` (as a duplicate-free list) -/
+def common (c1 c2 : List Nat) : List Nat := c1.eraseDups.filter (fun x => c2.contains x)
+
+/-- index of the first side whose corner set equals `corners` -/
+def findSide (sides : List (List Nat)) (corners : List Nat) : Option Nat :=
+  let i := sides.findIdx (fun s => setEq s corners)
+  if i < sides.length then some i else none
+
+/-- `CellBase.get_common_side` (`none` = `NoCommonSidesError`): the position in `side_names` of the
+    side of `c1` whose corners are exactly the common vertices. -/
+def commonSide (k : Kind) (c1 c2 : List Nat) : Option Nat :=
+  let com := common c1 c2
+  if com.length ≠ (k.sideIdx.headD []).length then none
+  else findSide k.sideIdx (com.map (fun i => c1.idxOf i))
+
+/-- `_bind_cell_neighbours` for cell `ci`: `neighbours[side]` after `add_neighbour` was called with
+    every cell in order (a later candidate on the same side overwrites an earlier one; the cell
+    itself is skipped by identity). -/
+def cellNbrs (g : Grid) (ci : Nat) : List (Option Nat) :=
+  let c1 := g.cells.getD ci []
+  (List.range g.cells.length).foldl
+    (fun acc cj =>
+      if cj = ci then acc
+      else match commonSide g.kind c1 (g.cells.getD cj []) with
+        | some s => acc.set s (some cj)
+        | none => acc)
+    (List.replicate g.kind.sideIdx.length none)
+
+/-- `CellBase.boundary`: the point indexes of all sides without a neighbour. -/
+def cellBoundary (g : Grid) (ci : Nat) : List Nat :=
+  let cell := g.cells.getD ci []
+  ((g.kind.sideIdx.zip (cellNbrs g ci)).filter (fun sn => sn.2.isNone)).flatMap
+    (fun sn => sn.1.map (fun si => cell.getD si 0))
+
+def cellBoundaries (g : Grid) : List (List Nat) := (List.range g.cells.length).map (cellBoundary g)
+
+/-! ### `Junction` -/
+
+/-- `Junction.is_boundary` given the boundary sets of all cells: some cell that contains the
+    point has it on a side without neighbour. -/
+def isBoundaryWith (g : Grid) (bs : List (List Nat)) (j : Nat) : Bool :=
+  (g.cells.zip bs).any (fun cb => cb.1.contains j && cb.2.contains j)
+
+def isBoundary (g : Grid) (j : Nat) : Bool := isBoundaryWith g (cellBoundaries g) j
+
+/-- two points are joined by a `CellConnection` of the cell: `{indexes[a], indexes[b]} == {j, to}`
+    for an entry `(a, b)` of `edge_pairs` -/
+def connected (k : Kind) (cell : List Nat) (j to : Nat) : Bool :=
+  k.edgePairs.any (fun e =>
+    let x := cell.getD e.1 0
+    let y := cell.getD e.2 0
+    (x == j && y == to) || (x == to && y == j))
+
+/-- `Junction.neighbours` after `_bind_junction_neighbours` (ascending index order) -/
+def junctionNbrs (g : Grid) (j : Nat) : List Nat :=
+  (List.range g.n).filter (fun to =>
+    to != j && g.cells.any (fun cell => cell.contains j && connected g.kind cell j to))
+
+/-- `SmootherBase.inner`: junctions that are not on the boundary, ascending -/
+def inner (g : Grid) : List Nat :=
+  let bs := cellBoundaries g
+  (List.range g.n).filter (fun j => !isBoundaryWith g bs j)
+
+/-! ### smoothing -/
+
+def pget (p : List V3) (i : Nat) : V3 := p.getD i V3.zero
+
+def vsum : List V3 → V3
+  | [] => V3.zero
+  | x :: xs => x + vsum xs
+
+/-- `np.average(points, axis=0)` -/
+def avg (ps : List V3) : V3 := V3.smul (1 / (ps.length : Rat)) (vsum ps)
+
+/-- one pass of the inner loop of `SmootherBase.smooth`: in place, junction after junction
+    (Gauss–Seidel): a fixed junction is skipped, any other one is moved to the average of the
+    *current* positions of its neighbours. -/
+def sweep (inner : List Nat) (nbrs : Nat → List Nat) (fixed : List Nat) (p : List V3) : List V3 :=
+  inner.foldl
+    (fun p j => if fixed.contains j then p else p.set j (avg ((nbrs j).map (pget p))))
+    p
+
+/-- `iterations` passes -/
+def iter (f : List V3 → List V3) : Nat → List V3 → List V3
+  | 0, p => p
+  | k + 1, p => iter f k (f p)
+
+/-- `SmootherBase.smooth(iterations)` on a grid (positions after the loop, before `backport`) -/
+def smooth (g : Grid) (fixed : List Nat) (k : Nat) (p : List V3) : List V3 :=
+  let inn := inner g
+  let nb := fun j => junctionNbrs g j
+  iter (sweep inn nb fixed) k p
+
+/-- the code computes `np.average` of an empty list (→ NaN) for a free inner junction without
+    neighbours (a point that belongs to no cell); the model marks that as undefined. -/
+def defined (g : Grid) (fixed : List Nat) : Bool :=
+  (inner g).all (fun j => fixed.contains j || !(junctionNbrs g j).isEmpty)
+
+/-- `SmootherBase.fix_points`: every junction closer than TOL to one of the points
+    (`tol2` = TOL², squared distances are compared). -/
+def fixPoints (tol2 : Rat) (p : List V3) (pts : List V3) : List Nat :=
+  pts.flatMap (fun q => (List.range p.length).filter (fun j => V3.norm2 (q - pget p j) < tol2))
+
+/-! ### copy back -/
+
+/-- `SketchSmoother.backport`: face `i` receives the positions of its quad -/
+def backportSketch (quads : List (List Nat)) (p : List V3) : List (List V3) :=
+  quads.map (fun q => q.map (pget p))
+
+/-- `MappedSketch.positions`: point `i` is read from the first (face, corner) whose index is `i` -/
+def positionsOf (quads : List (List Nat)) (faces : List (List V3)) (n : Nat) : List V3 :=
+  let idx := quads.flatten
+  let pts := faces.flatten
+  (List.range n).map (fun i => pts.getD (idx.idxOf i) V3.zero)
+
+/-- `MeshSmoother.backport`: vertex `i` is moved to point `i` -/
+def backportMesh (p : List V3) : List V3 := (List.range p.length).map (pget p)
+
+/-! ### lattice-like grids (hypothesis of `T_C15_lattice_partial`, decided per grid) -/
+
+/-- lattice coordinates of the points of the structured map with `nx` cells per row -/
+def quadCoord (nx : Nat) (q : Nat) : V3 := ⟨(q % (nx + 1) : Nat), (q / (nx + 1) : Nat), 0⟩
+
+/-- `GridBase` addressing of the structured `nx × ny` quad map -/
+def structQuads (nx ny : Nat) : Grid :=
+  ⟨quadKind,
+   (List.range ny).flatMap (fun j => (List.range nx).map (fun i =>
+     [j * (nx + 1) + i, j * (nx + 1) + i + 1, (j + 1) * (nx + 1) + i + 1, (j + 1) * (nx + 1) + i])),
+   (nx + 1) * (ny + 1)⟩
+
+/-- the neighbours of every free inner junction are centrally symmetric in the labelling `coord` -/
+def latticeLikeB (g : Grid) (fixed : List Nat) (coord : Nat → V3) : Bool :=
+  (inner g).all (fun j => fixed.contains j ||
+    (!(junctionNbrs g j).isEmpty &&
+      vsum ((junctionNbrs g j).map coord) == V3.smul ((junctionNbrs g j).length : Rat) (coord j)))
+
+/-! ### line protocol -/
+
+/-- `a;b;c` of `[i,j,…]` lists -/
+def parseCells? (s : String) : Option (List (List Nat)) :=
+  if s = "-" then some [] else (s.splitOn ";").mapM parseNatList?
+
+def parsePts? (s : String) : Option (List V3) :=
+  if s = "-" then some [] else (s.splitOn ";").mapM parseV3?
+
+def kindOf? (s : String) : Option Kind :=
+  match s with
+  | "hex" => some hexKind
+  | "quad" => some quadKind
+  | _ => none
+
+/-- a grid is well formed when every cell has the right number of corners, all below `n` -/
+def wellFormed (g : Grid) : Bool :=
+  g.cells.all (fun c => c.length == g.kind.corners && c.all (fun i => i < g.n))
+
+/-- ⌊x·2^60⌋, the answer format for positions (compared by the harness within 1e-12) -/
+def fix60 (x : Rat) : Int := (x * (2 ^ 60 : Nat)).floor
+
+def showV60 (v : V3) : String := s!"{fix60 v.x},{fix60 v.y},{fix60 v.z}"
+
+def showOptNat (o : Option Nat) : String := match o with | some i => toString i | none => "-"
+
+/-- `c15.topo kind cells n` → boundary junctions, inner junctions, neighbour lists, cell neighbours -/
+def handleTopo (args : List String) : Option String :=
+  match args with
+  | [k, cells, n] => do
+      let kind ← kindOf? k
+      let cells ← parseCells? cells
+      let n ← parseNat? n
+      let g : Grid := ⟨kind, cells, n⟩
+      if !wellFormed g then some "reject" else
+      let inn := inner g
+      let bnd := (List.range n).filter (fun j => !inn.contains j)
+      let nb := (List.range n).map (fun j => showNatList (junctionNbrs g j))
+      let cn := (List.range cells.length).map (fun ci => "[" ++ ",".intercalate ((cellNbrs g ci).map showOptNat) ++ "]")
+      some s!"B{showNatList bnd} I{showNatList inn} N{";".intercalate nb} C{";".intercalate cn}"
+  | _ => none
+
+/-- `c15.smooth kind cells points fixedIdx fixedPts iters` → positions after smoothing, the copied
+    back faces (sketch) or vertices (mesh), and the positions reconstructed from the faces -/
+def handleSmooth (args : List String) : Option String :=
+  match args with
+  | [k, cells, pts, fixedIdx, fixedPts, iters] => do
+      let kind ← kindOf? k
+      let cells ← parseCells? cells
+      let p ← parsePts? pts
+      let fi ← parseNatList? fixedIdx
+      let fp ← parsePts? fixedPts
+      let it ← parseNat? iters
+      let g : Grid := ⟨kind, cells, p.length⟩
+      if !wellFormed g then some "reject" else
+      let fixed := fi ++ fixPoints (1 / (10 ^ 14 : Nat)) p fp
+      if !defined g fixed then some "undefined" else
+      let q := smooth g fixed it p
+      let faces := backportSketch cells q
+      let back := if kind.corners == 4 then positionsOf cells faces p.length else backportMesh q
+      let showPts (l : List V3) := ";".intercalate (l.map showV60)
+      some s!"P {showPts q} F {"|".intercalate (faces.map showPts)} R {showPts back}"
+  | _ => none
+
+/-- `c15.lattice kind cells fixedIdx coords` → whether the labelling `coords` (one per point) is lattice-like -/
+def handleLattice (args : List String) : Option String :=
+  match args with
+  | [k, cells, fixedIdx, coords] => do
+      let kind ← kindOf? k
+      let cells ← parseCells? cells
+      let fi ← parseNatList? fixedIdx
+      let cs ← parsePts? coords
+      let g : Grid := ⟨kind, cells, cs.length⟩
+      if !wellFormed g then some "reject" else
+      some (toString (latticeLikeB g fi (pget cs)))
+  | _ => none
+
+def handle (op : String) (args : List String) : Option String :=
+  match op with
+  | "c15.lattice" => handleLattice args
+  | "c15.topo" => handleTopo args
+  | "c15.smooth" => handleSmooth args
+  | _ => none
 
 end CBV.C15
